@@ -3,7 +3,7 @@ import json
 from harness.enc import IdMap, tag, untag, table_from, proj_table
 from harness.core import Machinery
 from harness.x_regroup_session import obs_session
-from harness.x_regroup_big import obs_scale, describe, VIAS
+from harness.x_regroup_big import obs_scale, describe, VIAS, SIZES, THRESHOLDS
 from pyg_base import dictable, cmp, first, last
 
 AGG = {'list': None, 'len': len, 'first': first, 'last': last}
@@ -197,7 +197,8 @@ def scaled(ctx):
     the odd row early / in the middle / late (beyond rows 16, 64, 100, 256, 1024), calls the real code; Trace_Regroup judges"""
     ctx.mc('MC_RegroupB', 'MC_RegroupB_quick.cfg' if ctx.quick else 'MC_RegroupB_thorough.cfg', coverage=not ctx.quick)
     # regrouping by runs of the unsorted rows (one key cut into several groups) must be rejected by the scaling law
-    ctx.mc('MC_RegroupB', 'MC_RegroupB_split.cfg', must_fail='NeverSplit', coverage=False)
+    if not ctx.quick:
+        ctx.mc('MC_RegroupB', 'MC_RegroupB_split.cfg', must_fail='NeverSplit', coverage=False)
     descs = ctx.generate('MC_RegroupB', 'MC_RegroupB_gen.cfg')
     pairs = {}
     for d in descs:
@@ -207,42 +208,47 @@ def scaled(ctx):
     if any(bys != set(map(json.dumps, BYS)) for bys in pairs.values()):
         raise Machinery('MC_RegroupB_gen: the key choices are not the ones the driver rotates through')
     combos = [dict(zip(('pat', 'odd'), json.loads(k))) for k in sorted(pairs)]
-    plan = []          # (combo index, size, position class, salt)
+    plan = []          # (combo index, size, where the odd row stands, salt)
     for c, d in enumerate(combos):
         if ctx.quick:
-            # every (pattern, odd key): the odd row LATE in a table of more than 100 rows, EARLY / in the MIDDLE of a smaller one
-            plan.append((c, (101, 130, 260)[c % 3] if c % 9 else 260, 'late', c))
-            plan.append((c, (17, 65)[c % 2], POSC[(c // 2) % 2], c + 1))
-            plan.append((c, (65, 17)[c % 2], POSC[1 + (c // 2) % 2], c + 2))
-            if c % 5 == 0: plan.append((c, 130, 'middle', c + 3))
-            if c % 16 == 3: plan.append((c, 1030, POSC[1 + (c // 16) % 2], c))
+            # every (pattern, odd key): in a table of more than 100 rows the odd row just beyond the first 100 / 128 / 256 rows;
+            # in the smaller ones early / in the middle / beyond the first 16 / 64
+            sz = (130, 260, 104)[c % 3]
+            plan.append((c, sz, 'past:100' if sz < 260 else ('past:100', 'past:128', 'past:256')[(c // 3) % 3], c))
+            plan.append((c, (20, 68)[c % 2], ('early', 'middle')[(c // 2) % 2], c + 1))
+            plan.append((c, (68, 20)[c % 2], ('past:64', 'past:16')[c % 2] if (c // 2) % 2 else 'last', c + 2))
+            if c % 4 == 0: plan.append((c, 260, ('middle', 'late')[(c // 4) % 2], c + 3))
+            if c % 16 == 3: plan.append((c, 1030, ('past:1024', 'middle', 'past:256', 'past:100')[(c // 16) % 4], c))
         else:
-            for si, size in enumerate((17, 65, 101, 130, 260)):
-                for pi, pc in enumerate(POSC):
-                    for v in range(4 if size < 200 else 2):
-                        plan.append((c, size, pc, c + si + pi + v))
-            if c % 3 == 0: plan.append((c, 1030, POSC[(c // 3) % 3], c))
-    obs = []
+            for si, size in enumerate(SIZES[:5]):
+                for pi, pc in enumerate(['early', 'middle', 'late', 'last'] + ['past:%d' % t for t in THRESHOLDS if t + 2 < size]):
+                    for v in range(2 if size < 200 else 1):
+                        plan.append((c, size, pc, c + si + pi + 2 * v))
+            if c % 2 == 0: plan.append((c, 1030, ('past:1024', 'middle', 'past:256', 'past:100')[(c // 2) % 4], c))
+    obs, seen = [], set()
     for c, size, pc, salt in plan:
         d = combos[c]
-        if not d['odd'] and pc != 'late':
-            continue
         via = VIAS[salt % 4]
-        by = list(BYS[(salt // 4) % 3]) if via != 'pivot' else ['a']
+        by = list(BYS[(salt // 4) % 3]) if (via != 'pivot' and not (ctx.quick and size > 100 and pc.startswith('past'))) else ['a']
         sc = describe(d, size, ('repeat', 'block')[(salt // 2) % 2], pc)
+        key = json.dumps([sc, via, by], sort_keys=True)
+        if key in seen:          # (a pattern without an odd row is the same table wherever the odd row would stand)
+            continue
+        seen.add(key)
         o = obs_scale(sc, via, by, FORMS[(salt // 3) % 2], proj, agg=AGGS[(salt // 4) % 4] if via == 'pivot' else 'last',
                       grp=('grp', 'sub')[(salt // 5) % 2], k=salt)
         obs.append(o)
         ctx.note(('scale', c, size, pc, via))
-    ctx.evals += len(obs)
-    for line, clause in ctx.validate('Trace_Regroup', obs):
-        o = obs[line - 1]
-        n = len(o['sc']['pat']['rows']) * o['sc']['k'] + len(o['sc']['odd'])
-        ctx.violation(clause, {'op': 'scale', 'via': o['via'], 'by': o['by'], 'form': o['form'], 'grp': o['grp'], 'agg': o['agg'], 'sc': o['sc'], 'rows': n},
-                      {'stage': o['stage'], 'raised': o['raised'], 'out_rows': len(o['out']['rows']), 'out_head': o['out']['rows'][:2] if n <= 130 else [],
-                       'inv_rows': len(o['inv']['rows'])})
     small = min(obs, key=lambda o: len(json.dumps(o)))
     ctx.sample({'observation_scaled': {k: (v if k not in ('out', 'inv', 'after') else {'cols': v['cols'], 'rows': v['rows'][:3]}) for k, v in small.items() if k != 'colcmp'}})
+    return obs
+
+
+def scaled_violation(ctx, clause, o):
+    n = len(o['sc']['pat']['rows']) * o['sc']['k'] + len(o['sc']['odd'])
+    ctx.violation(clause, {'op': 'scale', 'via': o['via'], 'by': o['by'], 'form': o['form'], 'grp': o['grp'], 'agg': o['agg'], 'sc': o['sc'], 'rows': n},
+                  {'stage': o['stage'], 'raised': o['raised'], 'out_rows': len(o['out']['rows']), 'out_head': o['out']['rows'][:2] if n <= 130 else [],
+                   'inv_rows': len(o['inv']['rows'])})
 
 
 def run(ctx):
@@ -336,17 +342,20 @@ def run(ctx):
         pt = renamed(pivot_table(rng, keyrows, sub, ypool), m)
         obs.append(obs_pivot(pt, [m[c] for c in x], 'name' if (len(x) == 1 and i % 3) else 'list', m['y'], m['z'], rng.choice(['last', 'list', 'len', 'first', 'last']), i))
         ctx.note(('rand', i))
+    obs += scaled(ctx)
     ctx.evals += len(obs)
     bad = ctx.validate('Trace_Regroup', obs)
     for line, clause in bad:
         o = obs[line - 1]
+        if o['op'] == 'scale':
+            scaled_violation(ctx, clause, o)
+            continue
         case = {k: o[k] for k in ('op', 't', 'by', 'form', 'idcol', 'grp', 'x', 'y', 'z', 'agg') if k in o}
         if o['op'] == 'pivot':
             case['y_nan_objects'] = nan_objects(o['t'], o['y'])
         ctx.violation(clause, case, {k: o[k] for k in ('stage', 'out', 'unl', 'ung', 'unp', 'colcmp', 'raised', 'after') if k in o})
     ctx.sample({'observation': obs[1]})
     ctx.sample({'observation_pivot': next(o for o in reversed(obs) if o['op'] == 'pivot')})
-    scaled(ctx)
     sessions(ctx)
     ctx.exhaustive = False
     ctx.assumptions += ['key cells of results are compared with the key equality of the statement (a class shows one representative, 1 or 1.0)',
